@@ -33,11 +33,74 @@ def gen_ns(r):
     return lv
 
 
+U2_IMPORTS = [lambda a: ["import", [[["pkg"], a]]], lambda a: ["from", ["m"], [["x", a]]],
+              lambda a: ["import", [[["pkg", "sub"], a]]], lambda a: ["from", ["pkg"], [["sub", a]]]]
+
+
+def to_u2(r, prog):
+    """a stage-2 shaped program -> one of the unused-side fragment u2: no import statement of its own; 1-4 imports `as`
+    fresh names (never a target: bound exactly once) at random top-level positions; some loads redirected to them"""
+    fresh = ["imp%d" % k for k in range(1, r.randint(1, 4) + 1)]
+
+    def ex(e):
+        t = e[0]
+        if t == "load":
+            return ["load", r.choice(fresh), e[2]] if (e[1] not in (G.REG, G.DEC) and r.random() < .2) else e
+        if t == "op":
+            if e[1] == "call" and e[2] and e[2][0][0] == "load" and e[2][0][1] in (G.REG, G.DEC):
+                # registration of a def / lambda: the registered object stays what it is
+                return ["op", e[1], [x if x[0] == "load" else ex(x) for x in e[2]]]
+            return ["op", e[1], [ex(x) for x in e[2]]]
+        if t == "attr":
+            return ["attr", ex(e[1]), e[2]]
+        if t == "lambda":
+            return ["lambda", e[1], [ex(x) for x in e[2]], ex(e[3])]
+        return e
+
+    def pr(P):
+        P = dict(P)
+        for k in ("posonly", "args", "kwonly"):
+            P[k] = [[n, ex(a) if a is not None else None] for n, a in P[k]]
+        for k in ("vararg", "kwarg"):
+            if P[k] is not None:
+                P[k] = [P[k][0], ex(P[k][1]) if P[k][1] is not None else None]
+        P["defaults"] = [ex(x) for x in P["defaults"]]
+        P["kw_defaults"] = [ex(x) if x is not None else None for x in P["kw_defaults"]]
+        return P
+
+    def st(x):
+        t = x[0]
+        if t in ("import", "from"):
+            return ["pass"]
+        if t == "expr":
+            return ["expr", ex(x[1])]
+        if t == "assign":
+            return ["assign", x[1], ex(x[2])]
+        if t == "aug":
+            return ["aug", x[1], x[2], ex(x[3])]
+        if t == "def":
+            return ["def", x[1], [ex(d) for d in x[2]], pr(x[3]), ex(x[4]) if x[4] is not None else None, [st(y) for y in x[5]]]
+        if t == "for":
+            return ["for", x[1], ex(x[2]), [st(y) for y in x[3]], [st(y) for y in x[4]]]
+        if t in ("while", "if"):
+            return [t, ex(x[1]), [st(y) for y in x[2]], [st(y) for y in x[3]]]
+        if t == "with":
+            return ["with", [[ex(e), tg] for e, tg in x[1]], [st(y) for y in x[2]]]
+        if t == "try":
+            return ["try", [st(y) for y in x[1]], [[ty, nm, [st(y) for y in hb]] for ty, nm, hb in x[2]],
+                    [st(y) for y in x[3]], [st(y) for y in x[4]]]
+        return x
+    out = [st(x) for x in prog]
+    for a in fresh:
+        out.insert(r.randint(0, len(out)), r.choice(U2_IMPORTS)(a))
+    return out
+
+
 def make_case(seed, i, kind=None):
     r = cm.rng(seed, "c05", i)
     if kind is None:
         # 2/10 stage-2 programs (functions and lambdas, no class / comprehension), 1/10 stage 1, the rest as before
-        kind = {0: "s2", 1: "s2", 2: "s1"}.get(i % 10, "exec" if i % 4 != 3 else "free")
+        kind = {0: "s2", 1: "s2", 2: "s1", 4: "u2"}.get(i % 10, "exec" if i % 4 != 3 else "free")
     if kind == "exec":
         prog = G.gen_program(r, True)
     elif kind == "s1":
@@ -45,6 +108,9 @@ def make_case(seed, i, kind=None):
         kind = "exec"
     elif kind == "s2":
         prog = G.gen_program(r, True, classes=False, funcs=True, comps=False)
+        kind = "exec"
+    elif kind == "u2":
+        prog = to_u2(r, G.gen_program(r, True, classes=False, funcs=True, comps=False))
         kind = "exec"
     else:
         prog = G.gen_program(r, False)
@@ -263,7 +329,7 @@ def decode(model, ids):
            "scan": {"missing": [[ln, dn(d)] for ln, d in model["scan"]["missing"]],
                     "unused": [[ln, dn(f), dn(a)] for ln, f, a in model["scan"]["unused"]]},
            "trace": [[ln, rev[n], r] for ln, n, r in model["trace"]]}
-    for k in ("stage", "star_free", "sound", "precise", "exact"):
+    for k in ("stage", "star_free", "sound", "precise", "exact", "ustage", "unused_ok"):
         if k in model:
             out[k] = model[k]
     if "scandoc" in model:
@@ -597,6 +663,10 @@ def check_case(ctx, case, src, ids, im, mo):
     if stage >= 1 and not (mo.get("sound", True) and mo.get("precise", True)):
         ctx.disagreement("statement check: stage-%d soundness / precision is false on this program" % stage, rec,
                          {"sound": mo.get("sound"), "precise": mo.get("precise")}, mo.get("trace"))
+    ustage = mo.get("ustage", 0) if mo.get("star_free", True) else 0
+    ctx.bump("ufragment:stage%d" % ustage if ustage else "ufragment:outside")
+    if ustage >= 1 and not mo.get("unused_ok", True):
+        ctx.disagreement("statement check: stage-%d unused_sound is false on this program" % ustage, rec, None, mo.get("trace"))
     # 1. correspondence
     if isinstance(im["fm"], dict) or "exc" in im["scan"]:
         ctx.bump("impl_exception")
